@@ -120,8 +120,9 @@ fn check_normal_string_error(string_token: &LuaSyntaxToken) -> Result<(), String
                             if let Some('{') = chars.next() {
                                 let unicode_hex =
                                     chars.by_ref().take_while(|c| *c != '}').collect::<String>();
+                                // Lua encodes any value below 2^31 (surrogates included)
                                 if let Ok(code_point) = u32::from_str_radix(&unicode_hex, 16)
-                                    && std::char::from_u32(code_point).is_none()
+                                    && code_point > 0x7FFF_FFFF
                                 {
                                     return Err(t!(
                                         "Invalid unicode escape sequence '\\u{{%{unicode_hex}}}'",
